@@ -81,6 +81,28 @@ static int table_mode() {
           ncalls++;
           if (std::find(allowed[q].begin(), allowed[q].end(), r) == allowed[q].end()) mismatch("GetI", id, v.name, x4, r, "not-in-Bracket");
         }
+        if (vi == 0) {
+          // history: an object that HAD another (linear) grid and then receives this grid by move assignment
+          SQuIDS h(nx, 2, 1, 0);
+          h.Set_xrange(-3.0 - id % 5, 40.0 + id % 7, "lin");
+          (void)call_get_i(h, 1.0);
+          SQuIDS src(nx, 2, 1, 0);
+          src.Set_xrange(xs);
+          h = std::move(src);
+          for (long q = 0; q < nxs; q++) {
+            long x4 = xlo + q;
+            long r = call_get_i(h, image(v, x4));
+            ncalls++;
+            if (std::find(allowed[q].begin(), allowed[q].end(), r) == allowed[q].end()) mismatch("GetI", id, "after-move-assign", x4, r, "not-in-Bracket");
+          }
+          SQuIDS h2(std::move(h));      // and by move construction
+          for (long q = 0; q < nxs; q += 3) {
+            long x4 = xlo + q;
+            long r = call_get_i(h2, image(v, x4));
+            ncalls++;
+            if (std::find(allowed[q].begin(), allowed[q].end(), r) == allowed[q].end()) mismatch("GetI", id, "after-move-construct", x4, r, "not-in-Bracket");
+          }
+        }
         if (lin) {
           // the same grid through Set_xrange(a,b,"linear"): (nx-1) divides b-a, all values dyadic => exact nodes
           SQuIDS& p = *objs2[nx];
@@ -190,6 +212,8 @@ static int trace_mode(int argc, char** argv) {
       } else {
         a = std::pow(10.0, U(rng) * 17 - 9);          // > 1e-10 as Set_xrange demands
         b = a * (1 + std::pow(10.0, U(rng) * 8 - 3));
+        if (c % 11 == 5) { a = std::pow(10.0, U(rng) * 9 - 9.5); b = std::pow(10.0, 300 + U(rng) * 8); }   // the widest representable ranges
+        if (c % 11 == 7) { a = std::pow(10.0, 290 + U(rng) * 10); b = a * (1.5 + U(rng) * 50); }
       }
       if (!(a < b)) continue;
       SQuIDS o(nx, 2, 1, 0);
